@@ -273,6 +273,11 @@ def run_script(sc_id, f, mode, api, sizes, extra):
         p.s = TLSConnection(p.ssock)
     attach_log(p.c, p.csock, logs["c"])
     attach_log(p.s, p.ssock, logs["s"])
+    recsize = extra[2] if len(extra) > 2 else None
+    if recsize:
+        # the application's own fragment size during the handshake: every handshake message is cut into pieces of
+        # that many bytes (several end exactly on a piece boundary)
+        p.c.recordSize = p.s.recordSize = recsize
     outcomes = []
     data = {"c": bytearray(), "s": bytearray()}
     ver = None
@@ -309,6 +314,8 @@ def run_script(sc_id, f, mode, api, sizes, extra):
                 o.append(len(got))
         outcomes.append(tuple(o))
         if name == "hs":
+            if recsize:
+                p.c.recordSize = p.s.recordSize = 16384
             if not (co.ok and so.ok):
                 break
             outcomes.append(("view", str((p.c.version, p.c.session.cipherSuite,
@@ -335,13 +342,15 @@ def _case(job):
     signal.signal(signal.SIGALRM, _alarm)
     signal.alarm(200)
     try:
-        ref = run_script(sc_id, f, "gen", api, sizes, extra)
+        # (a scenario with its own fragment size is measured against the run WITHOUT it: how the sender cuts its
+        # handshake messages into records must not matter either)
+        ref = run_script(sc_id, f, "gen", api, sizes, extra[:2])
         run = run_script(sc_id, f, "blk", api, sizes, extra)
         outcome_eq = json.dumps(ref["outcomes"]) == json.dumps(run["outcomes"])
         traces = []
         for ep in ("c", "s"):
             # write()/read() frame data exactly like writeAsync(); the file objects may cut it differently
-            wire_eq = ref["wire_" + ep] == run["wire_" + ep] or api == "file"
+            wire_eq = ref["wire_" + ep] == run["wire_" + ep] or api == "file" or len(extra) > 2
             data_eq = ref["data_" + ep] == run["data_" + ep]
             ev = [{"ev": "CFG", "bodies": split_bodies(run["dlv_" + ep]), "outcomeEq": outcome_eq,
                    "wireEq": bool(wire_eq), "dataEq": data_eq}]
@@ -376,10 +385,10 @@ def part(rep, tier, validate):
              (F(3, "srp_sha"), none), (F(3, "ecdhe_rsa", ticket=True, resume="ticket"), none),
              # a handshake that fails on both sides (no common version): the exceptions must be the same, too
              (F(3, "ecdhe_rsa"), ({}, {"minVersion": (3, 1), "maxVersion": (3, 2)})),
-             (F(3, "ecdhe_rsa", npn=True), none),
+             (F(3, "ecdhe_rsa", npn=True), none), (F(3, "ecdhe_rsa"), ({}, {}, 4)), (F(4, "tls13"), ({}, {}, 4)),
              (F(0, "dhe_rsa"), none), (F(2, "dh_anon"), none), (F(4, "tls13", reqCert="cert"), none), (F(3, "rsa", resume="id"), none)]
     if tier == "quick":
-        flavs = flavs[:10]
+        flavs = flavs[:12]
     jobs = []
     for si, (f, extra) in enumerate(flavs):
         for ai, api in enumerate(("rw", "sock", "into", "file")):
@@ -405,7 +414,8 @@ def part(rep, tier, validate):
     seen = set()
     for i, (ep, info) in enumerate(owners):
         f = flavs[info["sc"]][0]
-        key = ("blocking", FL.fname(f) + ("" if info["sc"] != 8 else "+noversion"), info["api"], json.dumps(info["sizes"]))
+        key = ("blocking", FL.fname(f) + ("" if info["sc"] != 8 else "+noversion") + ("+recordSize4" if len(flavs[info["sc"]][1]) > 2 else ""),
+               info["api"], json.dumps(info["sizes"]))
         if key not in seen:
             seen.add(key)
             rep.case(key, info["nontrivial"])
